@@ -49,6 +49,9 @@ def make_form(rng, i):
         lst = tgt.children if tgt is not None else f.survey
         lst.insert(rng.randint(0, len(lst)), row)
 
+    # the legacy 'flat' setting explicitly switched off: nothing is flattened
+    if rng.random() < 0.08:
+        f.settings["flat"] = rng.choice(["no", "false", "No", "FALSE"])
     # what makes a row with a calculation (or a trigger) user-visible: a label, or a hint alone
     if rng.random() < 0.3:
         for j in range(rng.randint(1, 3)):
